@@ -207,6 +207,58 @@ impl Report {
         }
     }
 
+    /// Serialises counters, families and violations (worker subprocess -> coordinator).
+    pub fn export(&self) -> J {
+        let v = self.violations.lock().unwrap();
+        json!({
+            "evaluations": self.evaluations.load(Ordering::Relaxed),
+            "nontrivial": self.nontrivial.load(Ordering::Relaxed),
+            "skipped": self.skipped.load(Ordering::Relaxed),
+            "states": self.states.load(Ordering::Relaxed),
+            "transitions": self.transitions.load(Ordering::Relaxed),
+            "traces": self.traces.load(Ordering::Relaxed),
+            "outcomes": self.outcomes.lock().unwrap().iter().map(|h| h.to_string()).collect::<Vec<_>>(),
+            "families": self.families.lock().unwrap().iter().map(|f| json!({"name": f.name, "cases": f.cases, "nontrivial": f.nontrivial, "skipped": f.skipped, "note": f.note})).collect::<Vec<_>>(),
+            "violations": v.iter().map(|(k, x)| json!({"sig": k, "order": x.order, "witness": x.witness, "detail": x.detail, "count": x.count})).collect::<Vec<_>>(),
+        })
+    }
+
+    pub fn import(&self, j: &J) {
+        let g = |k: &str| j[k].as_u64().unwrap_or(0);
+        self.evaluations.fetch_add(g("evaluations"), Ordering::Relaxed);
+        self.nontrivial.fetch_add(g("nontrivial"), Ordering::Relaxed);
+        self.skipped.fetch_add(g("skipped"), Ordering::Relaxed);
+        self.states.fetch_add(g("states"), Ordering::Relaxed);
+        self.transitions.fetch_add(g("transitions"), Ordering::Relaxed);
+        self.traces.fetch_add(g("traces"), Ordering::Relaxed);
+        if let Some(o) = j["outcomes"].as_array() {
+            for h in o {
+                if let Some(h) = h.as_str().and_then(|s| s.parse::<u64>().ok()) {
+                    self.outcome_hash(h);
+                }
+            }
+        }
+        if let Some(fs) = j["families"].as_array() {
+            for f in fs {
+                self.family(FamilyStat {
+                    name: f["name"].as_str().unwrap_or("").to_string(),
+                    cases: f["cases"].as_u64().unwrap_or(0),
+                    nontrivial: f["nontrivial"].as_u64().unwrap_or(0),
+                    skipped: f["skipped"].as_u64().unwrap_or(0),
+                    note: f["note"].as_str().unwrap_or("").to_string(),
+                });
+            }
+        }
+        if let Some(vs) = j["violations"].as_array() {
+            for v in vs {
+                let n = v["count"].as_u64().unwrap_or(1);
+                for _ in 0..n.min(1) {
+                    self.violation(v["sig"].as_str().unwrap_or("?"), v["order"].as_u64().unwrap_or(0), v["witness"].clone(), v["detail"].as_str().unwrap_or("").to_string());
+                }
+            }
+        }
+    }
+
     pub fn violation_count(&self) -> usize {
         self.violations.lock().unwrap().len()
     }
